@@ -14,6 +14,9 @@ def set_meta(instance: Any, **meta: Any) -> Dict[str, Any]:
     Updates object pjrpc metadata.
     """
 
+    # a bound method (e.g. a class method of a view) keeps its attributes on the underlying function
+    instance = getattr(instance, '__func__', instance)
+
     if not hasattr(instance, '__pjrpc_meta__'):
         instance.__pjrpc_meta__ = {}
 
